@@ -177,8 +177,12 @@ fn hostile_plane_point(rng: &mut Rng) -> (P2, &'static str) {
         1 => (pentagon_point(rng.range(0.0, std::f64::consts::TAU), rng.log10(0.0, 16.0)), "plane.centre"),
         2 => {
             // on / next to one of the 10 internal seams (azimuth k * 36 deg)
-            let az = (36.0 * rng.below(10) as f64).to_radians() + rng.log10(3.0, 17.0) * rng.sign();
-            (pentagon_point(az, rng.f()), "plane.seam")
+            // (a fifth of them exactly on the seam, as exactly as the azimuth k * pi / 5 can be written)
+            let off = if rng.chance(0.2) { 0.0 } else { rng.log10(3.0, 17.0) * rng.sign() };
+            let k = rng.below(10) as f64;
+            let az = if rng.chance(0.5) { (36.0 * k).to_radians() } else { k * std::f64::consts::PI / 5.0 } + off;
+            let frac = if rng.chance(0.3) { (1 + rng.below(19)) as f64 / 20.0 } else { rng.f() };
+            (pentagon_point(az, frac), "plane.seam")
         }
         3 => (pentagon_point(rng.range(0.0, std::f64::consts::TAU), 1.0 - rng.log10(0.0, 16.0)), "plane.edge"),
         4 => {
@@ -450,9 +454,15 @@ fn zoom(run: &mut Run, q: P2, face: u8, h: f64, class: &str) {
 }
 
 pub fn check_small_triangle(run: &mut Run, q: P2, face: u8, size: f64, rot: f64) {
+    check_small_triangle_with(run, q, face, size, rot, 5e-4)
+}
+
+/// `min_margin`: how far (in barycentric units) every vertex must stay inside the projection triangle it lies in; close to a
+/// corner of that triangle only a margin proportional to the distance from the corner is possible
+pub fn check_small_triangle_with(run: &mut Run, q: P2, face: u8, size: f64, rot: f64, min_margin: f64) {
     let tri: Vec<P2> = (0..3).map(|k| [q[0] + size * (rot + 2.094_395_102_393_195_5 * k as f64).cos(), q[1] + size * (rot + 2.094_395_102_393_195_5 * k as f64).sin()]).collect();
     let s0 = sector(q);
-    if tri.iter().any(|p| sector(*p) != s0 || tri_margin(*p) < 5e-4) {
+    if tri.iter().any(|p| sector(*p) != s0 || tri_margin(*p) < min_margin) {
         run.count("triangles.skipped_straddling_seam_or_edge");
         return;
     }
@@ -489,13 +499,23 @@ pub fn check_small_triangle(run: &mut Run, q: P2, face: u8, size: f64, rot: f64)
                 return;
             }
         };
-        let change = (finer / area - 1.0).abs();
+        // (a region that collapses to area 0 at every subdivision has converged, to the wrong value)
+        let change = if area == 0.0 && finer == 0.0 { 0.0 } else { (finer / area - 1.0).abs() };
         area = finer;
         if change < 4e-6 {
             break;
         }
         if m >= 1024 {
-            run.count("triangles.measurement_not_converged_skipped");
+            // no convergence: skipped when the last estimate is at least in the right region (within 10 %); an image that
+            // keeps changing AND is nowhere near the right area is a collapsed or torn region
+            let planar = poly_area2(&tri).abs() / 2.0;
+            let off = (area / (planar * k_const()) - 1.0).abs();
+            if off > 0.1 || !off.is_finite() {
+                run.evaluations += 0;
+                run.violation("C16.triangle", case(), format!("image of a small planar triangle (area {:.6e}) does not settle under refinement and its spherical area {:.6e} is off by {:.3e}: a collapsed or torn region", planar, area, off));
+            } else {
+                run.count("triangles.measurement_not_converged_skipped");
+            }
             return;
         }
     }
@@ -556,6 +576,21 @@ fn run_c16(ctx: &Ctx) -> Run {
             if i % 4 == 0 {
                 let size = rng.log10(2.5, 5.0);
                 check_small_triangle(run, q, face, size, rng.range(0.0, 2.1));
+            }
+            if i % 8 == 1 {
+                // closer to the corners of the projection's triangles than a difference stencil can go: a small triangle at
+                // distance d = 1e-8 .. 1e-5 from a face centre, an edge midpoint or a face vertex, of size d / 5
+                let k = rng.below(5) as f64;
+                let corner = match rng.below(3) {
+                    0 => [0.0, 0.0],
+                    1 => pentagon_point((72.0 * k).to_radians(), 1.0),
+                    _ => pentagon_point((36.0 + 72.0 * k).to_radians(), 1.0),
+                };
+                let d = rng.log10(5.0, 8.0);
+                let t = rng.range(0.0, std::f64::consts::TAU);
+                let c = [corner[0] + d * t.cos(), corner[1] + d * t.sin()];
+                run.count("triangles.near_corner_attempts");
+                check_small_triangle_with(run, c, face, 0.2 * d, rng.range(0.0, 2.1), 0.05 * d);
             }
         }
     });
